@@ -8,6 +8,7 @@ mod gen;
 mod out;
 mod prng;
 mod spec;
+mod stree;
 mod props;
 
 use std::collections::HashMap;
